@@ -269,6 +269,63 @@ pub fn inert_between(r: &mut Rng, group_id: Option<u8>, group_n: u8, next_k: u8)
     }
 }
 
+/// Injected delay: a two-fragment group whose second fragment arrives `secs` seconds after the
+/// first, on its own thread (so that the pause costs no CPU and little wall time). Returns the
+/// history and, when the group did not come back whole, what was observed.
+pub fn pause_probe(secs: f64) -> (Vec<(Vec<u8>, bool)>, Option<String>) {
+    let mut p = Parser::with_ctor(0);
+    let a = b"55P5TL01VIaAL@7WKO@mBplU@<PDhh000000001S;AJ::4A80?4i@E53";
+    let b = b"1CQ@00000000000";
+    let l1 = nmea_ref::mk(2, 1, Some(7), a, 0);
+    let l2 = nmea_ref::mk(2, 2, Some(7), b, 2);
+    let hist = vec![(l1.clone(), false), (l2.clone(), true)];
+    let first = call_kind(&p.parse(&l1, false));
+    if first != "Incomplete" {
+        return (hist, Some(format!("first fragment returned {}", first)));
+    }
+    std::thread::sleep(std::time::Duration::from_millis((secs * 1000.0) as u64));
+    match p.parse(&l2, true) {
+        Call::Done(crate::observe::Outcome::Complete(s)) => {
+            let want: Vec<u8> = [&a[..], &b[..]].concat();
+            if s.data != want {
+                (hist, Some(format!("payload of {} characters delivered after a pause of {} s, {} were sent", s.data.len(), secs, want.len())))
+            } else if s.message.as_ref().map(|m| m.variant) != Some("StaticAndVoyageRelatedData") {
+                (hist, Some(format!("decoded as {:?} after a pause of {} s", s.message.as_ref().map(|m| m.variant), secs)))
+            } else {
+                (hist, None)
+            }
+        }
+        other => (hist, Some(format!("second fragment returned {} after a pause of {} s", call_kind(&other), secs))),
+    }
+}
+
+/// start the pause probes of a check (one shard, std build); join with `finish_pause_probes`
+pub fn start_pause_probes(ctx: &crate::mon::Ctx) -> Vec<(f64, std::thread::JoinHandle<(Vec<(Vec<u8>, bool)>, Option<String>)>)> {
+    if ctx.shard != 0 || crate::mon::CFG != "std" {
+        return Vec::new();
+    }
+    // 30 s, 60 s (and 5 min in the thorough tier) are the time-outs a maintainer would pick
+    let secs: &[f64] = if ctx.thorough() { &[1.2, 31.5, 61.5, 301.5] } else { &[1.2, 31.5] };
+    secs.iter().map(|s| (*s, { let s = *s; std::thread::spawn(move || pause_probe(s)) })).collect()
+}
+
+pub fn finish_pause_probes(rep: &mut crate::mon::Report, pid: &str, hs: Vec<(f64, std::thread::JoinHandle<(Vec<(Vec<u8>, bool)>, Option<String>)>)>) {
+    for (secs, h) in hs {
+        rep.eval();
+        rep.class(format!("pause-inside-group|{}s", secs));
+        rep.count("pause-probes");
+        while !h.is_finished() {
+            std::thread::sleep(std::time::Duration::from_millis(250));
+            crate::mon::beat();
+        }
+        match h.join() {
+            Ok((_, None)) => {}
+            Ok((hist, Some(why))) => rep.violation(pid, "group-lost-after-pause".into(), format!("{} (the two fragments of a group were fed {} s apart)", why, secs), || crate::mon::replay_history(&hist, "pause inside a group (replay does not reproduce the delay)")),
+            Err(_) => rep.violation(pid, "panic@pause-probe".into(), format!("the parser panicked in the pause probe ({} s)", secs), || crate::json::J::s("pause probe")),
+        }
+    }
+}
+
 pub fn call_kind(c: &Call) -> &'static str {
     match c {
         Call::Done(o) => o.kind(),
